@@ -103,7 +103,9 @@ static std::vector<double> const& nodes1d(TasmanianSparseGrid const &g){
 // ---------------------------------------------------------------- object slots
 struct Slot{
     TasmanianSparseGrid g;
+    int obase = 0;      // a copy of the outputs [b, e) keeps the token values of the source: output k of the copy is output b + k of the scenario
 };
+static int cur_obase = 0;
 static Slot slots[3];
 
 static void canon(TasmanianSparseGrid const &g, std::vector<double> &x){ // transformed -> canonical (linear transforms of [-1,1] and [0,1] rules only)
@@ -849,6 +851,17 @@ static std::vector<long long> ratios(TasmanianSparseGrid const &g, int output, s
     return r;
 }
 
+// tolerance between the rank-th and (rank+1)-th largest distinct quantised ratio; the two must differ by at least two quanta so that
+// the comparison "ratio > tolerance" gives the same answer on the doubles and on the quantised integers the specification sees
+static double pick_tolerance(std::vector<long long> const &sorted, int rank){
+    if (rank < 0) return 0.0;
+    if (sorted.empty() || rank == 0) return 21.0;
+    if ((size_t) rank >= sorted.size()) return (sorted.back() >= 2) ? ((double) sorted.back()) * 0.5e-8 + 1.0e-13 : 21.0;
+    for(size_t r = (size_t) rank; r < sorted.size(); r++) if (sorted[r - 1] - sorted[r] >= 2) return 0.5e-8 * ((double) sorted[r - 1] + (double) sorted[r]);
+    for(size_t r = (size_t) rank; r-- > 1; ) if (sorted[r - 1] - sorted[r] >= 2) return 0.5e-8 * ((double) sorted[r - 1] + (double) sorted[r]);
+    return 21.0;
+}
+
 // ---------------------------------------------------------------- watchdog
 // Runs the action first in a forked child: if the child does not finish in time the action is reported
 // as "timeout" and NOT executed in the parent (C08: refinement must terminate).  The library is deterministic,
@@ -882,7 +895,7 @@ static std::vector<double> rddvec(std::istringstream &in){ int n; in >> n; std::
 static std::vector<double> tokens_for(TasmanianSparseGrid const &g, const int *idx, int n, int epoch){
     int d = g.getNumDimensions(), outs = g.getNumOutputs();
     std::vector<double> v((size_t) n * outs);
-    for(int i=0; i<n; i++) for(int k=0; k<outs; k++) v[(size_t) i * outs + k] = tok(idx + (size_t) i * d, d, k, epoch);
+    for(int i=0; i<n; i++) for(int k=0; k<outs; k++) v[(size_t) i * outs + k] = tok(idx + (size_t) i * d, d, k + cur_obase, epoch);
     return v;
 }
 
@@ -908,7 +921,7 @@ int main(int argc, char **argv){
         if (cmd == "SCEN"){
             if (scen > 0) fprintf(out, "{\"e\":\"End\"}\n");
             std::string label; ls >> label; scen++; step = 0; skip_rest = false; pending.clear();
-            for(auto &s : slots) s.g = TasmanianSparseGrid();
+            for(auto &s : slots){ s.g = TasmanianSparseGrid(); s.obase = 0; }
             fprintf(out, "{\"e\":\"Reset\",\"scen\":%s}\n", jstr(label).c_str());
             continue;
         }
@@ -917,6 +930,7 @@ int main(int argc, char **argv){
         int o = 1;
         if (cmd == "@2"){ o = 2; ls >> cmd; } else if (cmd == "@1"){ o = 1; ls >> cmd; }
         TasmanianSparseGrid &g = slots[o].g;
+        cur_obase = slots[o].obase;
         if (cmd == "loadpool"){
             // macro: deliver `count` (0 = all) of the last candidates in a seeded random order, in batches of 1..maxbatch points
             int epoch, count, maxbatch; unsigned seed; ls >> epoch >> count >> seed >> maxbatch;
@@ -938,6 +952,45 @@ int main(int argc, char **argv){
                 for(size_t k=0; k<b; k++) for(int v : pts[i + k]) l2 += " " + std::to_string(v);
                 gen_lines.push_back(l2);
                 i += b;
+            }
+            for(auto it = gen_lines.rbegin(); it != gen_lines.rend(); ++it) pending.push_front(*it);
+            continue;
+        }
+        if (cmd == "loadtarget"){
+            // macro: deliver every point of a fixed target grid (same family / rule / order, level-type depth `depth`) that is not loaded yet,
+            // in a seeded random order and in batches of 1..maxbatch points -- whether or not the library proposed those points
+            int epoch, depth, maxbatch; unsigned seed; ls >> epoch >> depth >> seed >> maxbatch;
+            std::vector<std::string> gen_lines;
+            if (!g.empty() && g.getNumOutputs() > 0 && g.isUsingConstruction()){
+                int d = g.getNumDimensions();
+                TasmanianSparseGrid t;
+                try{
+                    if (g.isGlobal()) t.makeGlobalGrid(d, 1, depth, type_level, g.getRule(), std::vector<int>(), g.getAlpha(), g.getBeta());
+                    else if (g.isSequence()) t.makeSequenceGrid(d, 1, depth, type_level, g.getRule());
+                    else if (g.isFourier()) t.makeFourierGrid(d, 1, depth, type_level);
+                    else if (g.isLocalPolynomial()) t.makeLocalPolynomialGrid(d, 1, depth, g.getOrder(), g.getRule());
+                    else if (g.isWavelet()) t.makeWaveletGrid(d, 1, depth, g.getOrder());
+                }catch(std::exception &){ }
+                std::set<std::vector<int>> have;
+                const int *li = g.verifLoadedIndexes(); int nl0 = g.getNumLoaded();
+                for(int i=0; li != nullptr && i<nl0; i++) have.insert(std::vector<int>(li + (size_t) i * d, li + (size_t) (i + 1) * d));
+                std::vector<std::vector<int>> pts;
+                const int *ti = t.empty() ? nullptr : t.verifNeededIndexes();
+                for(int i=0; ti != nullptr && i<t.getNumNeeded(); i++){
+                    std::vector<int> p(ti + (size_t) i * d, ti + (size_t) (i + 1) * d);
+                    if (!have.count(p)) pts.push_back(p);
+                }
+                std::mt19937 gen(seed);
+                std::shuffle(pts.begin(), pts.end(), gen);
+                size_t i = 0;
+                while(i < pts.size()){
+                    size_t b = 1 + (size_t) (gen() % (unsigned) std::max(maxbatch, 1));
+                    b = std::min(b, pts.size() - i);
+                    std::string l2 = std::string(o == 2 ? "@2 " : "") + "loadc " + std::to_string(epoch) + " " + std::to_string(b);
+                    for(size_t k=0; k<b; k++) for(int v : pts[i + k]) l2 += " " + std::to_string(v);
+                    gen_lines.push_back(l2);
+                    i += b;
+                }
             }
             for(auto it = gen_lines.rbegin(); it != gen_lines.rend(); ++it) pending.push_front(*it);
             continue;
@@ -1010,11 +1063,7 @@ int main(int argc, char **argv){
                 auto r = ((output >= -1) && (output < g.getNumOutputs())) ? ratios(g, output, scale) : std::vector<long long>();
                 std::vector<long long> sorted = r; std::sort(sorted.begin(), sorted.end(), std::greater<long long>());
                 sorted.erase(std::unique(sorted.begin(), sorted.end()), sorted.end());
-                double tol;
-                if (rank < 0) tol = 0.0;
-                else if (sorted.empty() || rank == 0) tol = 21.0;
-                else if ((size_t) rank >= sorted.size()) tol = ((double) sorted.back()) * 0.5e-8 + 1.0e-13;
-                else tol = 0.5e-8 * ((double) sorted[(size_t) rank - 1] + (double) sorted[(size_t) rank]);
+                double tol = pick_tolerance(sorted, rank);
                 A("output", jint(output)); A("crit", jstr(crit)); A("ll", jivec(ll)); A("smode", jint(smode));
                 A("tolq", jint((long long) std::llround(tol * 1.0e8))); A("tolzero", jbool(tol == 0.0)); A("degenerate", jbool(ratios_degenerate));
                 std::string rs = "["; for(size_t i=0; i<r.size(); i++){ if (i) rs += ","; rs += std::to_string(r[i]); } rs += "]";
@@ -1044,10 +1093,7 @@ int main(int argc, char **argv){
                     auto r = ((output >= -1) && (output < g.getNumOutputs())) ? ratios(g, output, std::vector<double>()) : std::vector<long long>();
                     std::vector<long long> sorted = r; std::sort(sorted.begin(), sorted.end(), std::greater<long long>());
                     sorted.erase(std::unique(sorted.begin(), sorted.end()), sorted.end());
-                    double tol;
-                    if (rank < 0) tol = 0.0; else if (sorted.empty() || rank == 0) tol = 21.0;
-                    else if ((size_t) rank >= sorted.size()) tol = ((double) sorted.back()) * 0.5e-8 + 1.0e-13;
-                    else tol = 0.5e-8 * ((double) sorted[(size_t) rank - 1] + (double) sorted[(size_t) rank]);
+                    double tol = pick_tolerance(sorted, rank);
                     A("output", jint(output)); A("crit", jstr(crit)); A("ll", jivec(ll));
                     A("tolq", jint((long long) std::llround(tol * 1.0e8))); A("tolzero", jbool(tol == 0.0)); A("degenerate", jbool(ratios_degenerate));
                     std::string rs = "["; for(size_t i=0; i<r.size(); i++){ if (i) rs += ","; rs += std::to_string(r[i]); } rs += "]";
@@ -1079,9 +1125,11 @@ int main(int argc, char **argv){
                 auto y = tokens_for(g, idx.data(), n, epoch);
                 g.loadConstructedPoints(x, y);
             }else if (cmd == "setcoef"){
-                // overwrite coefficients with token-like integers
+                // overwrite coefficients with token-like integers (values are inferred by the library; for Global grids the coefficients are the values)
                 int epoch; ls >> epoch; A("epoch", jint(epoch));
-                int np = g.getNumPoints(); const int *idx = g.getPointsIndexes();
+                // no contract for an empty grid, for zero outputs or during construction: call not made
+                if (g.empty() || g.getNumOutputs() == 0 || g.getNumPoints() == 0 || g.isUsingConstruction()) throw std::string("skipped");
+                int np = g.getNumPoints(); const int *idx = (g.getNumLoaded() > 0) ? g.verifLoadedIndexes() : g.verifNeededIndexes();
                 auto c = tokens_for(g, idx, np, epoch);
                 if (g.isFourier()){ auto c2 = c; for(auto &v : c2) v = 0.0; c.insert(c.end(), c2.begin(), c2.end()); }
                 g.setHierarchicalCoefficients(c);
@@ -1092,23 +1140,41 @@ int main(int argc, char **argv){
                 int b, e; ls >> b >> e; A("b", jint(b)); A("e", jint(e));
                 TasmanianSparseGrid const &src = slots[3 - o].g;
                 g.copyGrid(src, b, e);
-            }else if (cmd == "copyctor"){ TasmanianSparseGrid t(slots[3 - o].g); g = std::move(t);
-            }else if (cmd == "assign"){ g = slots[3 - o].g;
+                slots[o].obase = slots[3 - o].obase + std::max(b, 0);
+            }else if (cmd == "copyctor"){ TasmanianSparseGrid t(slots[3 - o].g); g = std::move(t); slots[o].obase = slots[3 - o].obase;
+            }else if (cmd == "assign"){ g = slots[3 - o].g; slots[o].obase = slots[3 - o].obase;
             }else if (cmd == "rtswap"){ // continue on the object restored from a file image
                 int bin; ls >> bin; A("bin", jint(bin));
                 std::stringstream ss; g.write(ss, bin == 1);
                 TasmanianSparseGrid r; r.read(ss, bin == 1);
                 g = std::move(r);
-            }else if (cmd == "remove"){
+            }else if (cmd == "remove" || cmd == "removen"){
+                // remove: tolerance between the rank-th and (rank+1)-th largest ratio; removen: keep the `rank` points with the largest ratios
                 int rank, output; ls >> rank >> output;
-                auto r = ratios(g, output, std::vector<double>());
-                std::vector<long long> sorted = r; std::sort(sorted.begin(), sorted.end(), std::greater<long long>());
-                sorted.erase(std::unique(sorted.begin(), sorted.end()), sorted.end());
-                double tol = (rank <= 0 || sorted.empty()) ? 21.0 : ((size_t) rank >= sorted.size() ? 0.5e-8 * (double) sorted.back() : 0.5e-8 * ((double) sorted[(size_t) rank - 1] + (double) sorted[(size_t) rank]));
-                A("output", jint(output)); A("tolq", jint((long long) std::llround(tol * 1.0e8)));
-                std::string rs = "["; for(size_t i=0; i<r.size(); i++){ if (i) rs += ","; rs += std::to_string(r[i]); } rs += "]";
-                A("ratios", rs);
-                g.removePointsByHierarchicalCoefficient(tol, output);
+                A("output", jint(output));
+                if (g.empty() || !g.isLocalPolynomial()){
+                    // documented: runtime_error for anything that is not a local polynomial grid
+                    A("tolq", jint(0)); A("keep", jint(rank)); A("ratios", "[]");
+                    if (cmd == "remove") g.removePointsByHierarchicalCoefficient(0.1, -1); else g.removePointsByHierarchicalCoefficient(std::max(rank, 1), -1);
+                }else{
+                    // no contract without loaded values, during construction or for an output that does not exist: call not made
+                    if (g.getNumOutputs() == 0 || g.getNumLoaded() == 0 || g.isUsingConstruction() || output < -1 || output >= g.getNumOutputs()) throw std::string("skipped");
+                    auto r = ratios(g, output, std::vector<double>());
+                    if (ratios_degenerate) throw std::string("skipped");     // all values zero: 0/0
+                    std::vector<long long> sorted = r; std::sort(sorted.begin(), sorted.end(), std::greater<long long>());
+                    sorted.erase(std::unique(sorted.begin(), sorted.end()), sorted.end());
+                    double tol = pick_tolerance(sorted, std::max(rank, 0));
+                    int keep = std::max(0, std::min(rank, g.getNumLoaded()));
+                    A("tolq", jint((long long) std::llround(tol * 1.0e8))); A("keep", jint(keep));
+                    std::string rs = "["; for(size_t i=0; i<r.size(); i++){ if (i) rs += ","; rs += std::to_string(r[i]); } rs += "]";
+                    A("ratios", rs);
+                    {   // the loaded points the ratios belong to, in the library's order
+                        const int *li = g.verifLoadedIndexes(); int d = g.getNumDimensions();
+                        extra += ",\"before\":" + jistrips(li, g.getNumLoaded(), d);
+                    }
+                    if (cmd == "remove") g.removePointsByHierarchicalCoefficient(tol, output);
+                    else g.removePointsByHierarchicalCoefficient(keep, output);
+                }
             }else if (cmd == "bad"){
                 // documented misuse: each call must throw invalid_argument / runtime_error and leave the grid untouched
                 std::string which; ls >> which; A("which", jstr(which));
@@ -1127,6 +1193,16 @@ int main(int argc, char **argv){
                 else if (which == "update_aw_size") g.updateGrid(2, type_level, std::vector<int>((size_t) d + 1, 1));
                 else if (which == "update_ll_size") g.updateGrid(2, type_level, std::vector<int>(), std::vector<int>((size_t) d + 1, 1));
                 else if (which == "transform_size") g.setDomainTransform(std::vector<double>((size_t) d + 1, 0.0), std::vector<double>((size_t) d + 1, 1.0));
+                // one argument right (and different from what is stored), the other wrong: nothing may be stored
+                else if (which == "transform_a_size") g.setDomainTransform(std::vector<double>((size_t) d + 1, 3.0), std::vector<double>((size_t) d, 7.0));
+                else if (which == "transform_b_size") g.setDomainTransform(std::vector<double>((size_t) d, 3.0), std::vector<double>((size_t) d + 1, 7.0));
+                else if (which == "transform_b_empty") g.setDomainTransform(std::vector<double>((size_t) d, 3.0), std::vector<double>());
+                else if (which == "cand_aw_ok_ll_bad") g.getCandidateConstructionPoints(type_level, std::vector<int>((size_t) d, 1), std::vector<int>((size_t) d + 1, 1));
+                else if (which == "cand_aw_bad_ll_ok") g.getCandidateConstructionPoints(type_level, std::vector<int>((size_t) d + 1, 1), std::vector<int>());
+                else if (which == "make_aw_ok_ll_bad") g.makeGlobalGrid(2, 1, 2, type_level, rule_clenshawcurtis, std::vector<int>{1, 2}, 0.0, 0.0, nullptr, std::vector<int>{1, 2, 3});
+                else if (which == "make_local_ll_size") g.makeLocalPolynomialGrid(2, 1, 2, 1, rule_localp, std::vector<int>{1});
+                else if (which == "make_wavelet_ll_size") g.makeWaveletGrid(2, 1, 2, 1, std::vector<int>{1, 2, 3});
+                else if (which == "make_fourier_aw_size") g.makeFourierGrid(2, 1, 2, type_level, std::vector<int>{1});
                 else if (which == "conformal_size") g.setConformalTransformASIN(std::vector<int>((size_t) d + 1, 4));
                 else if (which == "load_size") g.loadNeededValues(std::vector<double>((size_t) (((g.getNumNeeded() > 0) ? g.getNumNeeded() : g.getNumPoints()) * outs + 1), 1.0));
                 else if (which == "eval_size"){ std::vector<double> y; g.evaluate(std::vector<double>((size_t) d + 1, 0.1), y); }
@@ -1187,6 +1263,7 @@ int main(int argc, char **argv){
         }catch(std::runtime_error &e){ res = "runtime_error"; what = e.what();
         }catch(std::exception &e){ res = std::string("other:") + typeid(e).name(); what = e.what();
         }catch(...){ res = "other:unknown"; }
+        if (cmd == "make" && res == "ok") slots[o].obase = 0;
         args += "}";
         std::string obs = "{";
         bool firsto = true;
